@@ -320,7 +320,7 @@ func c18c(tp *tape.Tape) core.Result {
 	}
 	var stmts []string // top-level statements after the definitions; the last one's value is checked
 	var want string
-	tpl := tp.Draw(7)
+	tpl := tp.Draw(8)
 	key = key.Int(tpl).Int(w)
 	switch tpl {
 	case 0: // a generator yields a closure over its local; the consumer returns it out of the loop
@@ -362,6 +362,15 @@ func c18c(tp *tape.Tape) core.Result {
 		stmts = []string{fmt.Sprintf("outer(%d)", k), "{\n" + drawMid() + "\nouter(" + fmt.Sprint(k) + ")\n}"}
 		want = fmt.Sprint(k + 1)
 		r.Inc("C.closure_called_deeper", 1)
+	case 7: // closures yielded by a generator and kept by a top-level loop body (no return detaches them), used in later statements
+		defs = append(defs, "gk = (b) -> {\n"+pad(w)+"k = b * 10\nyield (x) -> x + k\nj = b * 100\nyield (x) -> x + j + k\n}")
+		stmts = []string{fmt.Sprintf("for kf <- gk(%d) {\nkeep = kf\n}", k), "keep(1)"}
+		for i := 1 + tp.Draw(3); i > 0; i-- {
+			stmts = append(stmts, "{\n"+mids[tp.Draw(len(mids))]+"\n}", "keep(1)")
+		}
+		stmts = append(stmts, "for ka <- fromto(0, 3) {\nfor kb <- fromto(0, 2) {\nkc = ka + kb\n}\n}", "wide()", "keep(1)")
+		want = fmt.Sprint(1 + k*100 + k*10)
+		r.Inc("C.yielded_closure_kept_across_statements", 1)
 	case 5: // two closures of one maker, each running a loop over its captured bound, in one statement
 		defs = append(defs, "mk = (n) -> () -> {\ns = 0\nfor i <- fromto(0, n) {\ns = s + 1\n}\ns\n}")
 		stmts = []string{"a = mk(3)", fmt.Sprintf("b = mk(%d)", k), "[a(), b(), a()]", "{\n" + drawMid() + "\n[a(), b(), a(), b()]\n}"}
